@@ -47,12 +47,18 @@ def shards(tier):
         for p in range(1, 64):
             out.append(("query", tier, p, 64))
     out.append(("illegal",))
+    for a0 in range(0, 64, 16):
+        out.append(("addr_sweep", a0, a0 + 16))
     return out
 
 
-def mkbus(groups=(2,)):
-    u = G.Gear(short=3, groups=set(groups), devicetypes=[6, 8])
-    v = G.Gear(short=4, groups={5}, devicetypes=[8])
+SA, GRP = 3, 2          # unit under test (overridden by the address sweep)
+
+
+def mkbus(groups=None):
+    groups = (GRP,) if groups is None else groups
+    u = G.Gear(short=SA, groups=set(groups), devicetypes=[6, 8])
+    v = G.Gear(short=(SA + 1) % 64, groups={(GRP + 3) % 16}, devicetypes=[8])
     for x in (u, v):
         x.dtr0 = x.dtr1 = x.dtr2 = 0xA5
         x.tc_actual = 0x1234
@@ -62,7 +68,7 @@ def mkbus(groups=(2,)):
 
 def mkdest(kind):
     from dali.address import GearShort, GearGroup, GearBroadcast
-    return {"short": GearShort(3), "int": 3, "group": GearGroup(2), "broadcast": GearBroadcast()}[kind]
+    return {"short": GearShort(SA), "int": SA, "group": GearGroup(GRP), "broadcast": GearBroadcast()}[kind]
 
 
 def check_set(res, dest, val):
@@ -143,9 +149,41 @@ def check_query(res, selector, val, fault=None):
                           f"QueryDT8ColourValue({selector.name}) with stored {val:#06x}, fault {fault}: returned {r!r}, expected {exp!r}", case)
 
 
+def run_addr_sweep(res, lo, hi):
+    """The same set / limit / query addressed to every short address (object and integer) and every group:
+    nothing may depend on WHICH unit is addressed."""
+    global SA, GRP
+    from dali.gear.colour import QueryColourValueDTR, StoreColourTemperatureTcLimitDTR2
+    sel = [m for m in QueryColourValueDTR if m.name == "ColourTemperatureTC"][0]
+    old = SA, GRP
+    try:
+        for sa in range(lo, hi):
+            SA, GRP = sa, sa % 16
+            n0 = len(res["violations"])
+            for dest in ("short", "int", "group", "broadcast"):
+                for val in (0x00C8, 0x0172, 0x01FF):
+                    check_set(res, dest, val)
+            for lim in range(4):
+                check_limit(res, lim, 0x0099 + lim)
+            for val in (0x00FF, 0x1234):
+                check_query(res, sel, val)
+                check_query(res, sel, val, ("QueryColourValue", "silence"))
+            for v in res["violations"][n0:]:
+                v["case"]["sa"] = sa
+            res["evaluations"] += 20
+            res["states"] += 20
+    finally:
+        SA, GRP = old
+    res["distinct"].add(("addr_sweep", lo))
+    sample(res, {"address_sweep": [lo, hi - 1], "groups": "sa mod 16"})
+
+
 def run_shard(shard):
     res = new_result()
     k = shard[0]
+    if k == "addr_sweep":
+        run_addr_sweep(res, shard[1], shard[2])
+        return res
     if k == "set":
         _, dest, p, n, tier = shard
         vs = [x for i, x in enumerate(values(tier)) if i % n == p]
@@ -216,6 +254,10 @@ def run_shard(shard):
 
 
 def replay(case):
+    if "sa" in case:
+        r = new_result()
+        run_addr_sweep(r, case["sa"], case["sa"] + 1)
+        return r["violations"]
     from dali.gear.colour import QueryColourValueDTR as Q
     res = new_result()
     t = case["t"]
